@@ -51,7 +51,7 @@ RULE = ("one case = one frame of one real mask (or one (N, R, L) triple with all
         "samples at least one column/cell outside the ACS (or the case is an expected rejection); distinct = distinct protocol line")
 # the Cython kernel `_poisson` overruns its active list (size nx*ny, boundscheck off) when the sampling radius is ~1 and
 # max_attempts is large: segmentation fault instead of a mask or a ValueError (reported to the lead; C04 territory)
-PENDING_FINDINGS: list[str] = ["generator-crashes/VariableDensityPoisson"]
+PENDING_FINDINGS: list[str] = ["generator-crashes/VariableDensityPoisson/active-list-overrun"]   # listed as known: by the lead
 MOD = "props.c07"
 DYADIC_R = [2.5, 5.5, 3.25, 7.75, 10.5]
 ENUM_R = [2, 3, 4, 5, 6, 7, 8, 9, 10, 11, 12, 2.5, 5.5]
@@ -365,6 +365,38 @@ def gen_cases(ctx: Ctx) -> list[dict]:
 _RUN: dict = {}
 
 
+def _classify_crash(case: dict, how: str) -> dict:
+    conf = case["conf"]
+    rec = {"case": case, "how": how[:200], "key": f"generator-crashes/{conf['gen']}"}
+    if conf["gen"] == "VariableDensityPoisson" and conf.get("kwargs", {}).get("max_attempts", 10) > 10 and (
+            "died" in how or "exited" in how):
+        # the known class: radius ~ 1, many attempts, a point accepted into an occupied cell, num_actives > nx*ny.
+        # confirm through the .pyx front-end (bounds-checked Python) when that is cheap
+        rec["key"] += "/active-list-overrun"
+        w = RC.Worker({"VERIF_FORCE_FRONTEND": "1"})
+        try:
+            r = w.call(MOD, "job_case", case, budget=25)
+            rec["frontend"] = f"{r.get('err')}: {r.get('errmsg')}"
+        except RC.Hang:
+            rec["frontend"] = "not confirmed within 25 s (pure-Python kernel too slow for this size)"
+        except RC.WorkerFailure as e:
+            rec["frontend"] = "front-end run failed: " + str(e)[:80]
+        finally:
+            w.close()
+    return rec
+
+
+def _safe(store: dict, w, fn: str, args: dict, budget: float, what: dict):
+    """a worker call that can never take the check down: hang / death become recorded findings"""
+    try:
+        return w.call(MOD, fn, args, budget=budget)
+    except RC.Hang as e:
+        store["hangs"].append({"case": what, "budget": e.budget})
+    except RC.WorkerFailure as e:
+        store["crashes"].append(_classify_crash(what, str(e)))
+    return None
+
+
 def _run_cases(ctx: Ctx, store: dict):
     w = RC.Worker()
     store["cases"], store["hangs"], store["crashes"] = [], [], []
@@ -377,9 +409,9 @@ def _run_cases(ctx: Ctx, store: dict):
                 store["hangs"].append({"case": {k: c[k] for k in ("conf", "shape", "seed")}, "budget": e.budget})
                 continue
             except RC.WorkerFailure as e:
-                if "died" not in str(e) and "exited" not in str(e):
-                    raise
-                store["crashes"].append({"case": {k: c[k] for k in ("conf", "shape", "seed")}, "how": str(e)[:100]})
+                # the process running the real code died (or the job failed): a finding with its arguments, never exit 2;
+                # the next call starts a fresh worker and the remaining cases still run
+                store["crashes"].append(_classify_crash({k: c[k] for k in ("conf", "shape", "seed")}, str(e)))
                 continue
             store["cases"].append(c)
         # equispaced enumeration on the implementation
@@ -387,11 +419,13 @@ def _run_cases(ctx: Ctx, store: dict):
         pairs = [("FastMRIEquispaced", R, cf) for R in ENUM_R for cf in ENUM_CF]
         store["enum"] = []
         for i in range(0, len(pairs), 4):
-            store["enum"] += w.call(MOD, "job_equi_enum", {"pairs": pairs[i:i + 4], "widths": widths}, budget=600)
+            store["enum"] += _safe(store, w, "job_equi_enum", {"pairs": pairs[i:i + 4], "widths": widths}, 600,
+                                   {"conf": {"gen": "FastMRIEquispaced"}, "shape": None, "seed": None, "pairs": pairs[i:i + 4]}) or []
         # the integer-count flavour (CartesianEquispaced) on a coarser grid
         cw = widths[::3]
         cpairs = [("CartesianEquispaced", R, L) for R in (2, 4, 5.5, 8, 12) for L in (2, 5, 9, 16)]
-        store["enum"] += w.call(MOD, "job_equi_enum", {"pairs": cpairs, "widths": cw}, budget=600)
+        store["enum"] += _safe(store, w, "job_equi_enum", {"pairs": cpairs, "widths": cw}, 600,
+                               {"conf": {"gen": "CartesianEquispaced"}, "shape": None, "seed": None}) or []
         # statistics of the random masks
         store["stats"] = []
         nseed = 2000 if ctx.thorough else 400
@@ -405,7 +439,10 @@ def _run_cases(ctx: Ctx, store: dict):
                     cf = max(2, int(round(N * cf)))
                 conf = {"gen": gen, "accelerations": [R], "center_fractions": [cf], "mode": "static"}
                 seeds = [base + 7919 * k + j for k in range(nseed)]
-                r = w.call(MOD, "job_random_stats", {"conf": conf, "shape": [1, N, 2], "seeds": seeds}, budget=300)
+                r = _safe(store, w, "job_random_stats", {"conf": conf, "shape": [1, N, 2], "seeds": seeds}, 300,
+                          {"conf": conf, "shape": [1, N, 2], "seed": None})
+                if r is None:
+                    continue
                 store["stats"].append({"conf": conf, "N": N, "R": R, "res": r, "seed_base": base, "j": j, "nseed": nseed})
     finally:
         w.close()
@@ -568,9 +605,10 @@ def oracle(ctx: Ctx, deep: bool = False):
     for hg in store["hangs"]:
         yield Violation("call-does-not-return", f"generator call did not return within {hg['budget']} s", {"op": "case", **hg["case"]})
     for cr in store.get("crashes", []):
-        yield Violation(f"generator-crashes/{cr['case']['conf']['gen']}",
-                        f"the process running {cr['case']['conf']['gen']} died (segmentation fault) instead of returning a mask",
-                        {"op": "case", **cr["case"]})
+        yield Violation(cr["key"],
+                        f"the process running {cr['case']['conf']['gen']} died instead of returning a mask ({cr['how'][:60]}"
+                        + (f"; .pyx front-end: {cr['frontend']}" if cr.get("frontend") else "") + ")",
+                        {"op": "case", **cr["case"], "frontend": cr.get("frontend")})
     magic_dev = 0.0
     worst = {"equi": 0.0, "gauss": 0.0, "poisson": 0.0, "poisson_crop": 0.0, "ktradial": 0.0, "ktradial_crop": 0.0}
     n_opts = {"crop_corner": 0, "tol": 0, "max_attempts": 0, "slopes": 0}
